@@ -220,11 +220,13 @@ CHECKS = {
              '(and no usize subtraction inside an index expression underflows) by a small linear-integer argument from the '
              "path's comparisons, the postconditions of slice::binary_search over exactly the sub-slice searched, usize >= 0 "
              'and two table invariants whose premises are checked structurally (new() builds the table as [0]; every other '
-             'holder of &mut newlines only grows it).',
+             'holder of &mut newlines only grows it). Plus the CR LF clause of column counting: the character loop, read as a '
+             'finite transducer (state = loop-carried small-domain locals, input = CR/LF/other), is bisimilar to "count every '
+             'character except an LF right after a CR".',
         note='A necessary condition of "the lines-of-span query never panics, including spans that end at a line start or at '
-             'the end of the text"; it found the out-of-bounds read fixed in /repo 707b1f1. NOT decided: that line/column '
-             'numbers and returned byte ranges are the right ones, the str slicing done with them in lrlex/lrpar, CR LF '
-             'column counting, the unwrap()s that rely on the same invariants. The inequality prover is in-house '
+             'the end of the text"; it found the out-of-bounds read fixed in /repo 707b1f1. NOT decided: that line '
+             'numbers and returned byte ranges are the right ones, the str slicing done with them in lrlex/lrpar, '
+             'the unwrap()s that rely on the same invariants. The inequality prover is in-house '
              '(Fourier-Motzkin refutation + one integer tightening step, rules/linarith.py); no solver is called. Trusted: '
              'slice::binary_search postconditions; ' + TB,
         technique='path-sensitive linear bounds analysis over MIR terms (relational numeric abstract domain) + who-may-mutate check for the table invariants',
